@@ -90,16 +90,64 @@ def extreme_runs(chk, stats):
     return n
 
 
+def dtype_runs(chk, stats):
+    """Row i holds the series obtained by running the model on exactly that vector: whatever the dtype of the real data
+    (integer counts, float32) the recorded series are the values the model returned, and the loss is computed on them."""
+    import contextlib
+    import io
+
+    import numpy as np
+    from black_it.calibrator import Calibrator
+    from black_it.loss_functions.minkowski import MinkowskiLoss
+    from black_it.samplers.halton import HaltonSampler
+    from black_it.samplers.random_uniform import RandomUniformSampler
+
+    rng = chk.rng
+    n = 0
+    for dt in (np.int64, np.float32, np.int32, np.float64):
+        log = []
+
+        def model(theta, N, seed, log=log):  # noqa: N803
+            r = np.random.default_rng(seed)
+            out = (float(theta[0]) * 1000.3 + r.random((N, 2)) * 1e3)
+            log.append(out.copy())
+            return out
+
+        real = (np.arange(12).reshape(6, 2) * 37 % 11).astype(dt)
+        E = rng.randint(1, 2)
+        with contextlib.redirect_stdout(io.StringIO()):
+            cal = Calibrator(loss_function=MinkowskiLoss(), real_data=real, model=model, parameters_bounds=[[0.0], [1.0]],
+                             parameters_precision=[0.01], ensemble_size=E, samplers=[HaltonSampler(2), RandomUniformSampler(3)],
+                             verbose=False, random_state=rng.below(2**31), n_jobs=1)
+            cal.calibrate(3)
+        n += 1
+        stats[f"dtype:{np.dtype(dt).name}"] += 1
+        want = np.array(log).reshape(cal.series_samp.shape)
+        if cal.series_samp.dtype != np.float64 or cal.series_samp.tobytes() != want.astype(np.float64).tobytes():
+            bad = int(np.argmax((cal.series_samp.astype(np.float64) != want).reshape(len(want), -1).any(axis=1)))
+            chk.violation({"kind": "oracle", "clause": "series-of-param", "with": "real-data-dtype"},
+                          {"failed": "oracle:series-of-param", "detail": f"real_data of dtype {np.dtype(dt).name}: recorded series (dtype "
+                           f"{cal.series_samp.dtype}) of row {bad} are not the values the model returned "
+                           f"({cal.series_samp[bad].ravel()[:3]} vs {want[bad].ravel()[:3]})", "case": {"dtype": np.dtype(dt).name}})
+        relosses = [MinkowskiLoss().compute_loss(want[i], real) for i in range(len(want))]
+        if [float(x) for x in relosses] != [float(x) for x in cal.losses_samp]:
+            chk.violation({"kind": "oracle", "clause": "loss-of-series", "with": "real-data-dtype"},
+                          {"failed": "oracle:loss-of-series", "detail": f"real_data of dtype {np.dtype(dt).name}: recorded losses are not the loss of "
+                           "the series the model returned", "case": {"dtype": np.dtype(dt).name}})
+    return n
+
+
 def run(chk, replay=None):
     chk.proof_gate()
     if replay:
         cases = [json.loads(open(replay).read())["case"]]
-        if "extreme" in cases[0]:
+        if "extreme" in cases[0] or "dtype" in cases[0]:
             cases = []
     else:
         cases = gen_cases(chk)
     obs, bad, stats, keys, nontriv = cf.run_traces(chk, cases, cf.oracle_c02, nontrivial, label="C02")
     n_ext = extreme_runs(chk, stats)
+    n_ext += dtype_runs(chk, stats)
     cov = {
         "evaluations": len(cases) + n_ext, "distinct": len(keys), "distinct_nontrivial": len(nontriv),
         "extreme_value_batches_with_real_samplers": n_ext,
